@@ -1,7 +1,7 @@
 (* C20 — property theorems only. Each is closed by `exact` of a lemma proved in Proofs/. *)
-From JV Require Import Lib.Base Lib.C20Text Lib.C20Regex Model.C20Base Gen.C20Operators Gen.C20Regexes
+From JV Require Import Lib.Base Lib.C20Text Lib.C20Regex Model.C20Base Gen.C20Operators Gen.C20Regexes Gen.C20Registry
   Model.C20Restricted Model.C20RestrictedStr Spec.C20RestrictedSpec Model.C20Registered
-  Proofs.C20RestrictedProofs Proofs.C20RegisteredProofs.
+  Proofs.C20RestrictedProofs Proofs.C20RegisteredProofs Proofs.C20RangeRegexProofs Proofs.C20TdRegexProofs.
 Local Open Scope Z_scope.
 
 (* The operator table of jsonargparse/typing.py (regenerated into Gen/C20Operators.v on every run)
@@ -71,24 +71,69 @@ Theorem C20_range_roundtrip :
 Proof. exact range_roundtrip_lemma. Qed.
 Print Assumptions C20_range_roundtrip.
 
+(* The three regular expressions range_deserializer tries (translated from the source into
+   Gen/C20Regexes.v on every run; `$` = end of text or just before one final newline) accept exactly the
+   texts for which the model's scanner finds 1, 2 and 3 integer tokens — for EVERY string, so the
+   round-trip theorem above speaks about the patterns of the source. *)
+Theorem C20_range_regexes :
+  forall w, re_match rx_re_range_stop w = is_some (match_ints 1 w)
+         /\ re_match rx_re_range_start_stop w = is_some (match_ints 2 w)
+         /\ re_match rx_re_range_start_stop_step w = is_some (match_ints 3 w).
+Proof. exact range_regexes_lemma. Qed.
+Print Assumptions C20_range_regexes.
+
 (* every timedelta Python can represent, negative and sub-second included *)
 Theorem C20_timedelta_roundtrip :
   forall total, td_valid total = true -> timedelta_deserializer (PStr (td_str total)) = TdOk total.
 Proof. exact timedelta_roundtrip_lemma. Qed.
 Print Assumptions C20_timedelta_roundtrip.
 
+(* The two patterns timedelta_deserializer hands to re.match (translated from the function body on every
+   run) succeed — some prefix of the text is in the language — exactly when the model's scanners succeed,
+   for EVERY string: the round-trip theorem above speaks about the patterns of the source. *)
+Theorem C20_timedelta_regexes :
+  forall s, re_match rx_td_hms s = is_some (match_hms s) /\ re_match rx_td_days s = days_scan s.
+Proof. exact timedelta_regexes_lemma. Qed.
+Print Assumptions C20_timedelta_regexes.
+
 Theorem C20_secret_never_dumped : forall secret, secret_serializer secret = s_stars.
 Proof. exact secret_never_dumped_lemma. Qed.
 Print Assumptions C20_secret_never_dumped.
 
-(* FINDING (open, known_findings/C20.txt key=decimal-via-float): Decimal is serialised with float().
-   The full statement "forall d, the config-file round trip of d is lossless" is false of the
-   faithful model: no binary double equals 1/10, so whatever float() returns for Decimal('0.1')
-   the value read back differs. *)
+(* The registry of jsonargparse/typing.py (module-level register_type calls, regenerated into
+   Gen/C20Registry.v on every run) binds range, timedelta, SecretStr, bytes, bytearray, complex, UUID and
+   the pathlib classes to the serializer/deserializer pairs the models stand for, and Decimal to one of the
+   two modelled registrations. *)
+Theorem C20_registry : registry_ok registry = true /\ decimal_registration registry <> None.
+Proof. vm_compute. split; [reflexivity | discriminate]. Qed.
+Print Assumptions C20_registry.
+
+(* FINDING (known_findings/C20.txt key=decimal-via-float): registered with serializer float (RegFloat), the
+   statement "forall d, the config-file round trip of d is lossless" is false of the faithful model: no
+   binary double equals 1/10, so whatever float() and repr() return for Decimal('0.1') the value read back
+   differs. *)
 Theorem C20_decimal_via_float_refuted :
-  exists d, forall to_double, decimal_roundtrip_file_equal to_double d = false.
+  exists d, forall to_double to_text, decimal_file_equal to_double to_text RegFloat d = false.
 Proof. exact decimal_via_float_refuted_lemma. Qed.
 Print Assumptions C20_decimal_via_float_refuted.
+
+(* The repaired registration (fixes/C20-decimal-via-float.patch, RegHybrid): EVERY finite decimal comes back
+   equal from the config file and from the command line, whatever float() and repr() return. *)
+Theorem C20_decimal_hybrid_roundtrip :
+  forall to_double to_text d,
+    decimal_file_equal to_double to_text RegHybrid d = true /\ decimal_argv_equal to_double to_text RegHybrid d = true.
+Proof. exact decimal_hybrid_roundtrip_lemma. Qed.
+Print Assumptions C20_decimal_hybrid_roundtrip.
+
+(* Whichever registration the source has: inside the guard the judge uses (dec_class = 0: under RegHybrid every
+   decimal; under RegFloat the decimals that are binary doubles with at most 15 digits, on which float() and
+   repr() are assumed exact — float_faithful, an assumption about IEEE doubles exercised per case by the
+   correspondence) both channels are lossless. *)
+Theorem C20_decimal_guarded_roundtrip :
+  forall reg to_double to_text d, float_faithful to_double to_text -> dec_class (Some reg) d = 0%N ->
+    decimal_file_equal to_double to_text reg d = true /\ decimal_argv_equal to_double to_text reg d = true.
+Proof. exact decimal_guarded_roundtrip_lemma. Qed.
+Print Assumptions C20_decimal_guarded_roundtrip.
 
 (* hypotheses are satisfiable *)
 Example C20_valid_type_example :
@@ -100,3 +145,11 @@ Proof. vm_compute. split; reflexivity. Qed.
 Example C20_td_valid_example :
   td_valid (-1) = true /\ td_str (-1) = [45; 49; 32; 100; 97; 121; 44; 32; 50; 51; 58; 53; 57; 58; 53; 57; 46; 57; 57; 57; 57; 57; 57]%N.
 Proof. vm_compute. split; reflexivity. Qed.
+
+Example C20_dec_guard_example :
+  dec_guard {| d_mant := 375; d_exp := -3 |} = true /\ dec_guard {| d_mant := 1; d_exp := -1 |} = false
+  /\ dec_class (Some RegHybrid) {| d_mant := 1; d_exp := -1 |} = 0%N.
+Proof. vm_compute. repeat split; reflexivity. Qed.
+
+Example C20_float_faithful_example : float_faithful dy_of_dec (fun d => Some d).
+Proof. exact float_faithful_witness. Qed.
